@@ -28,10 +28,11 @@ def run(prog, chk):
     chk.rule('R16.D', 'context discipline: a context member a visitor sets for the body it analyses is saved first and restored on every normal exit')
     fns = [f for f in prog.functions if f.body and f.file.endswith('semantic_analyser.cpp')]
     chk.rule('R16.F', 'sibling agreement: every constructor-argument check instantiates the parameter list of a generic class (or matches an empty list)')
-    _context_discipline(prog, chk, fns)
+    gchk = _GuardAware(chk, prog, fns)
+    _context_discipline(prog, gchk, fns)
     _ctor_params_instantiated(prog, chk, fns)
     chk.rule('R16.G', 'every visitor of a declaration with a body sets the return context that visit(ReturnStatement) decides from')
-    _return_context_rule(prog, chk, fns)
+    _return_context_rule(prog, gchk, fns)
     _nesting_counter_rule(prog, chk, fns)
     visits = {}
     for f in fns:
@@ -497,6 +498,51 @@ def _ctor_params_instantiated(prog, chk, fns):
                        key='ctor-params:' + label[:60])
     chk.count('constructor-argument checks', n, 3)
 
+
+
+
+class _GuardAware:
+    """Proxy of the check object for the context rules: a visitor that keeps its context in a scope-guard class this rule cannot read
+    (a guard composed of member guards, a template guard — anything K-GUARD does not summarise) is *not decided*: a failing obligation
+    in such a visitor ends the run as analysis-broken (exit 2) instead of reporting a violation that may be the guard's doing."""
+    def __init__(self, chk, prog, fns):
+        self._chk = chk
+        from ..kguard import Guards
+        known = Guards(prog)
+        self._opaque = {}
+        for f in fns:
+            if not f.body:
+                continue
+            for v in SX.walk(f.body, into_lambdas=False):
+                if v.get('k') != 'var':
+                    continue
+                t = (v.get('type') or '').replace('const ', '').rstrip('& ').strip()
+                if not t or t.startswith('std::') or 'lambda' in t or 'ScopeExit' in t:
+                    continue
+                rec = prog.facts.records.get(t) or prog.facts.records.get(t.split('<')[0])
+                if rec is None and '<' not in t:
+                    continue
+                if rec is not None and not str(rec.get('file', '')).startswith(prog.repo):
+                    continue
+                guardish = '<' in t and rec is None
+                if rec is not None:
+                    # a guard is constructed over what it guards: a constructor with a non-const reference parameter, or a user destructor
+                    ms = prog.methods_of(rec['name'])
+                    by_ref = any(m.kind == 'ctor' and any((p_.get('type') or '').rstrip().endswith('&') and not (p_.get('type') or '').startswith('const') for p_ in m.params)
+                                 for m in ms)
+                    has_dtor = any(m.kind == 'dtor' for m in ms)
+                    guardish = (by_ref or has_dtor) and t not in known.recs
+                if guardish:
+                    self._opaque.setdefault(f.name, t)
+
+    def __getattr__(self, name):
+        return getattr(self._chk, name)
+
+    def ob(self, rule, fn, site, ok, detail='', key=None, nontrivial=True, path=None):
+        if not ok and getattr(fn, 'name', None) in self._opaque:
+            raise AnalysisBroken('%s keeps its context in the scope guard %s, which this rule cannot read: %s is not decided for it'
+                                 % (getattr(fn, 'short', fn), self._opaque[fn.name], rule))
+        return self._chk.ob(rule, fn, site, ok, detail, key=key, nontrivial=nontrivial, path=path)
 
 
 def _return_context_rule(prog, chk, fns, rule='R16.G'):
